@@ -289,6 +289,7 @@ package http
 //@   thorough  handlePostStream/call/http.Server.streamDB/pre#1.5
 //@   loop 1 invariant sub != nil && subscription == sub && !closed && pmRead && pmOK && !hdr && nerr == 0
 //@   loop 2 invariant sub != nil && subscription == sub && !closed && pmRead && pmOK && !hdr && nerr == 0 && -1 <= rangeindex && rangeindex < len(dbs)
+//@   loop 2 invariant forall i int :: 0 <= i && i < len(dbs) ==> dbs[i] != nil
 //@   loop 3 invariant sub != nil && subscription == sub && !closed && pmRead && pmOK && !hdr && nerr == 0 && -1 <= rangeindex && rangeindex < 0x1000000000000
 //@   loop 4 invariant sub != nil && subscription == sub && !closed && pmRead && pmOK && hdr && nerr == 0
 //@   loop 5 invariant sub != nil && subscription == sub && !closed && pmRead && pmOK && hdr && nerr == 0
